@@ -1,16 +1,36 @@
-"""Unit `iobuffers` (C04): src/transport/mod.rs IoBuffers::{bytes_consumed, mark_used, consume, consume_for_read} - the cursor
-every Reader (and the virtio-fs writer) advances through the request / reply buffers.
-View: the buffer list is the sequence of the byte ADDRESSES it still covers (`cells`), in order."""
+"""Unit `iobuffers` (C04, C17): src/transport/mod.rs IoBuffers::{bytes_consumed, allocate_file_volatile_slice, mark_dirty, mark_used,
+consume, consume_for_read, split_at} and src/transport/virtiofs/mod.rs IoBuffers::consume_for_write - the cursor every Reader and the
+virtio-fs writer advance through the request / reply buffers, and the only place where the dirty bitmap is touched.
+
+View: the buffer list is the sequence of the byte ADDRESSES it still covers (`cells`), in order.
+Dirty tracking (C17): the bitmap is ghost state, a log `DirtyLog.marked` of the addresses handed to `Bitmap::mark_dirty`, threaded
+as an erased `Tracked<&mut DirtyLog>` parameter from the entry points down to the `bitmap().mark_dirty(..)` call (rule R23).  The set
+of dirty addresses is `marked.to_set()`; `marked' == marked + w` therefore means dirty' == dirty U w (lemma_log_union).
+
+The contracts are module-level constants so that unit `virtiofsw` can assume exactly what is proved here."""
 from vx.api import Unit, Fn, Copy, Raw, Group
 
 T = 'src/transport/mod.rs'
+V = 'src/transport/virtiofs/mod.rs'
 
-PRE = r'''
+# ---------------------------------------------------------------------------------------------------------------------------------
+# models of the dependencies (ASSUMED; based on vm-memory 0.17.1 volatile_memory.rs / bitmap/mod.rs and src/common/file_buf.rs)
+MODEL = r'''
 use std::collections::VecDeque;
-pub trait BitmapSlice {}
+// ---- the dirty bitmap as ghost state: the log of every address handed to Bitmap::mark_dirty, in order
+pub tracked struct DirtyLog { pub ghost marked: Seq<int> }
+impl DirtyLog { pub open spec fn dirty(&self) -> Set<int> { self.marked.to_set() } }
+// vm_memory::bitmap::{Bitmap, BitmapSlice}: `mark_dirty(offset, len)` marks the `len` bytes starting `offset` bytes after the
+// position this slice of the bitmap starts at (`base`); nothing for len == 0 (AtomicBitmap::set_addr_range returns early).
+// The real bitmap is page granular: the dirty PAGES are the pages of the addresses in the log (monotone image of this model).
+pub trait BitmapSlice: Sized {
+    spec fn base(&self) -> int;
+    fn mark_dirty(&self, offset: usize, len: usize, Tracked(dm): Tracked<&mut DirtyLog>)
+        ensures final(dm).marked =~= old(dm).marked + range(self.base() + offset, len as nat);
+}
 pub type Result<T> = core::result::Result<T, Error>;
 // transport::Error: only the variants the extracted functions construct (the others wrap foreign error types)
-pub enum Error { DescriptorChainOverflow, InvalidParameter, SplitOutOfBounds(usize), Other }
+pub enum Error { DescriptorChainOverflow, InvalidParameter, SplitOutOfBounds(usize), VolatileMemoryError(VolatileMemoryError), Other }
 impl io::Error {
     #[verifier::external_body]
     pub fn new<E>(kind: io::ErrorKind, e: E) -> (r: io::Error) ensures r.os_code() is None, r.skind() == kind { unimplemented!() }
@@ -20,6 +40,9 @@ impl io::Error {
 #[verifier::reject_recursive_types(S)]
 pub struct VolatileSlice<'a, S> { _p: PhantomData<&'a S> }
 #[verifier::external_body] #[derive(Debug)] pub struct VolatileMemoryError { _p: u8 }
+impl<'a, S> Clone for VolatileSlice<'a, S> {
+    #[verifier::external_body] fn clone(&self) -> (r: Self) ensures r == *self { unimplemented!() }
+}
 impl<'a, S> VolatileSlice<'a, S> {
     pub uninterp spec fn addr(&self) -> int;
     pub uninterp spec fn slen(&self) -> nat;
@@ -28,15 +51,33 @@ impl<'a, S> VolatileSlice<'a, S> {
         ensures match r { Ok(v) => count <= self.slen() && v.addr() == self.addr() + count && v.slen() == self.slen() - count, Err(_) => true },
                 count <= self.slen() && self.addr() + count <= usize::MAX ==> r is Ok
     { unimplemented!() }
+    // subslice(offset, count): Ok iff offset + count <= len (compute_end_offset); address + offset, length count
+    #[verifier::external_body] pub fn subslice(&self, offset: usize, count: usize) -> (r: core::result::Result<VolatileSlice<'a, S>, VolatileMemoryError>)
+        ensures match r { Ok(v) => offset + count <= self.slen() && v.addr() == self.addr() + offset && v.slen() == count, Err(_) => true },
+                offset + count <= self.slen() ==> r is Ok
+    { unimplemented!() }
+}
+impl<'a, S: BitmapSlice> VolatileSlice<'a, S> {
+    // the bitmap slice a VolatileSlice carries starts at the slice's own first byte: GuestRegionMmap::get_slice, offset() and
+    // subslice() all build `bitmap.slice_at(<the same offset the address was advanced by>)` (vm-memory invariant, ASSUMED)
+    #[verifier::external_body] pub fn bitmap(&self) -> (r: &S) ensures r.base() == self.addr() { unimplemented!() }
 }
 // a VolatileSlice denotes existing memory: its range does not wrap around the address space (vm-memory invariant)
 pub broadcast axiom fn axiom_vslice_range<'a, S>(v: VolatileSlice<'a, S>)
     ensures 0 <= #[trigger] v.addr(), v.addr() + v.slen() <= usize::MAX;
-#[verifier::external_body] pub struct FileVolatileSlice<'a> { _p: PhantomData<&'a u8> }
+// crate::file_buf::FileVolatileSlice: (address, length) view without bitmap (KX harness group file_buf covers its accessors)
+#[verifier::external_body] #[derive(Clone, Copy)] pub struct FileVolatileSlice<'a> { _p: PhantomData<&'a u8> }
 impl<'a> FileVolatileSlice<'a> {
     pub uninterp spec fn addr(&self) -> int;
     pub uninterp spec fn slen(&self) -> nat;
+    #[verifier::external_body] pub fn len(&self) -> (r: usize) ensures r == self.slen() { unimplemented!() }
+    // from_volatile_slice: `Self::new(s.ptr_guard_mut().as_ptr(), s.len())` - same address, same length
+    #[verifier::external_body] pub fn from_volatile_slice<S: BitmapSlice>(s: &VolatileSlice<'a, S>) -> (r: Self)
+        ensures r.addr() == s.addr(), r.slen() == s.slen() { unimplemented!() }
 }
+'''
+
+SPEC = r'''
 // ---- specification: the bytes still to be consumed, as the sequence of their addresses
 pub open spec fn range(a: int, n: nat) -> Seq<int> { Seq::new(n, |i: int| a + i) }
 pub open spec fn cells<'a, S>(b: Seq<VolatileSlice<'a, S>>) -> Seq<int> decreases b.len() {
@@ -59,38 +100,156 @@ pub proof fn lemma_cells_push_front<'a, S>(v: VolatileSlice<'a, S>, rest: Seq<Vo
 {
     assert((seq![v] + rest).skip(1) =~= rest);
 }
-impl<'a, S: BitmapSlice> IoBuffers<'a, S> {
-    // IoBuffers::allocate_file_volatile_slice iterates `for buf in &self.buffers` (VecDeque iterator, no Verus specification):
-    // contract only (assumed): the returned slices are the first min(count, available) bytes, in order
-    #[verifier::external_body]
-    fn allocate_file_volatile_slice(&self, count: usize) -> (r: Vec<FileVolatileSlice<'_>>)
-        ensures fcells(r@) =~= cells(self.buffers@).subrange(0, minn(count as int, cells(self.buffers@).len() as int)),
-    { unimplemented!() }
-    #[verifier::external_body]
-    fn mark_dirty(&self, count: usize) { unimplemented!() }     // dirty-bitmap effect on &self (C17): not modelled
+pub proof fn lemma_cells_concat<'a, S>(a: Seq<VolatileSlice<'a, S>>, b: Seq<VolatileSlice<'a, S>>)
+    ensures cells(a + b) =~= cells(a) + cells(b)
+    decreases a.len()
+{
+    if a.len() == 0 { assert(a + b =~= b); }
+    else { assert((a + b).skip(1) =~= a.skip(1) + b); lemma_cells_concat(a.skip(1), b); }
+}
+pub proof fn lemma_cells_one<'a, S>(v: VolatileSlice<'a, S>)
+    ensures cells(seq![v]) =~= range(v.addr(), v.slen())
+{ assert(seq![v].skip(1) =~= Seq::<VolatileSlice<'a, S>>::empty()); reveal_with_fuel(cells, 2); }
+pub proof fn lemma_cells_take_next<'a, S>(b: Seq<VolatileSlice<'a, S>>, i: int)
+    requires 0 <= i < b.len()
+    ensures cells(b.take(i + 1)) =~= cells(b.take(i)) + range(b[i].addr(), b[i].slen()),
+            cells(b) =~= cells(b.take(i)) + cells(b.skip(i)),
+            cells(b.skip(i)) =~= range(b[i].addr(), b[i].slen()) + cells(b.skip(i + 1)),
+{
+    assert(b.take(i + 1) =~= b.take(i) + seq![b[i]]);
+    lemma_cells_concat(b.take(i), seq![b[i]]);
+    lemma_cells_one(b[i]);
+    assert(b =~= b.take(i) + b.skip(i));
+    lemma_cells_concat(b.take(i), b.skip(i));
+    assert(b.skip(i).skip(1) =~= b.skip(i + 1));
+}
+pub proof fn lemma_fcells_push(b: Seq<FileVolatileSlice<'_>>, v: FileVolatileSlice<'_>)
+    ensures fcells(b.push(v)) =~= fcells(b) + range(v.addr(), v.slen())
+    decreases b.len()
+{
+    if b.len() == 0 { assert(b.push(v).skip(1) =~= Seq::<FileVolatileSlice<'_>>::empty()); reveal_with_fuel(fcells, 2); }
+    else { assert(b.push(v).skip(1) =~= b.skip(1).push(v)); lemma_fcells_push(b.skip(1), v); }
+}
+// appending to the log is union on the dirty set (what "dirty_after == dirty_before U written" means for the contracts below)
+pub proof fn lemma_log_union(a: Seq<int>, w: Seq<int>)
+    ensures (a + w).to_set() =~= a.to_set().union(w.to_set())
+{
+    assert forall|x: int| (a + w).contains(x) <==> (a.contains(x) || w.contains(x)) by {
+        if a.contains(x) { let i = choose|i: int| 0 <= i < a.len() && a[i] == x; assert((a + w)[i] == x); }
+        if w.contains(x) { let i = choose|i: int| 0 <= i < w.len() && w[i] == x; assert((a + w)[a.len() + i] == x); }
+        if (a + w).contains(x) { let i = choose|i: int| 0 <= i < (a + w).len() && (a + w)[i] == x; if i < a.len() { assert(a[i] == x); } else { assert(w[i - a.len()] == x); } }
+    }
 }
 '''
 
+# ---------------------------------------------------------------------------------------------------------------------------------
+# contracts (proved in this unit, assumed by unit virtiofsw)
+TOK = dict(param='Tracked(dm): Tracked<&mut DirtyLog>', arg='Tracked(dm)')
+OLDC = 'cells(old(self).buffers@)'
+CB_REQ = ["forall|b: &[FileVolatileSlice<'_>]| f.requires((b,))",
+          # the documented contract of the callback: it reports at most the bytes it was offered
+          "forall|b: &[FileVolatileSlice<'_>], q: io::Result<usize>| f.ensures((b,), q) && q is Ok ==> q->Ok_0 <= fcells(b@).len()"]
+ADVANCE = '''r is Ok ==> r->Ok_0 <= count && r->Ok_0 <= cells(old(self).buffers@).len() && final(self).bytes_consumed == old(self).bytes_consumed + r->Ok_0
+                        && cells(final(self).buffers@) =~= cells(old(self).buffers@).skip(r->Ok_0 as int)'''
+ERR_STAYS = 'r is Err ==> final(self).buffers@ == old(self).buffers@ && final(self).bytes_consumed == old(self).bytes_consumed'
+# what the callback was offered and that the result is the callback's own: the first min(count, available) addresses, in order
+CB_LINK = '''r is Ok ==> (minn(count as int, %s.len() as int) == 0 && r->Ok_0 == 0)
+                        || (exists|b: &[FileVolatileSlice<'_>]| fcells(b@) =~= %s.subrange(0, minn(count as int, %s.len() as int)) && #[trigger] f.ensures((b,), r))''' % (OLDC, OLDC, OLDC)
+NO_OVERFLOW = 'old(self).bytes_consumed + %s.len() <= usize::MAX' % OLDC     # chain-length invariant established by Reader/Writer::new
+UNMARKED = 'final(dm).marked =~= old(dm).marked'
 
-def unit(root='/repo'):
+CONTRACTS = {
+    'allocate_file_volatile_slice': dict(
+        ensures=['fcells(r@) =~= cells(self.buffers@).subrange(0, minn(count as int, cells(self.buffers@).len() as int)) // [C04.allocate.prefix]']),
+    'mark_dirty': dict(
+        # exactly the first min(count, available) addresses of the cursor are marked, nothing else
+        ensures=['final(dm).marked =~= old(dm).marked + cells(self.buffers@).subrange(0, minn(count as int, cells(self.buffers@).len() as int)) // [C17.mark_dirty.prefix_exactly]']),
+    'mark_used': dict(
+        ensures=[
+            # "an operation that would exceed ... fails without writing": counter overflow is an error and nothing moves
+            'r is Err ==> old(self).bytes_consumed + bytes_consumed > usize::MAX && final(self).buffers@ == old(self).buffers@ && final(self).bytes_consumed == old(self).bytes_consumed // [C04.mark_used.overflow]',
+            'old(self).bytes_consumed + bytes_consumed <= usize::MAX ==> r is Ok',
+            # "the bytes obtained from readers are exactly the request bytes in order with none skipped or repeated"
+            '''r is Ok ==> final(self).bytes_consumed == old(self).bytes_consumed + bytes_consumed
+                        && cells(final(self).buffers@) =~= cells(old(self).buffers@).skip(minn(bytes_consumed as int, cells(old(self).buffers@).len() as int)) // [C04.mark_used.advance]''']),
+    'consume': dict(
+        requires=CB_REQ,
+        ensures=[ERR_STAYS + ' // [C04.consume.err_nothing_moves]',
+                 ADVANCE + ' // [C04.consume.advance]',
+                 CB_LINK + ' // [C04.consume.offered]',
+                 # C17 (1)+(2): a write marks exactly the addresses the callback reported as filled - the consumed prefix - no more, no less
+                 'r is Ok && mark_dirty ==> final(dm).marked =~= old(dm).marked + %s.subrange(0, r->Ok_0 as int) // [C17.consume.written_marked_exactly]' % OLDC,
+                 # C17 (2): a read marks nothing, whatever happens
+                 '!mark_dirty ==> %s // [C17.consume.read_unmarked]' % UNMARKED,
+                 # C17 (2): a failed callback (nothing reported as written) marks nothing
+                 'r is Err && %s ==> %s // [C17.consume.err_unmarked]' % (NO_OVERFLOW, UNMARKED)]),
+    'consume_for_read': dict(
+        requires=CB_REQ,
+        ensures=[ERR_STAYS,
+                 ADVANCE + ' // [C04.consume_for_read.advance]',
+                 CB_LINK,
+                 '%s // [C17.consume_for_read.unmarked]' % UNMARKED]),
+    'consume_for_write': dict(
+        requires=CB_REQ,
+        ensures=[ERR_STAYS,
+                 ADVANCE + ' // [C04.consume_for_write.advance]',
+                 CB_LINK,
+                 'r is Ok ==> final(dm).marked =~= old(dm).marked + %s.subrange(0, r->Ok_0 as int) // [C17.consume_for_write.written_marked_exactly]' % OLDC,
+                 'r is Err && %s ==> %s // [C17.consume_for_write.err_unmarked]' % (NO_OVERFLOW, UNMARKED)]),
+    'split_at': dict(
+        ensures=[
+            # "Returns an error if offset > self.available_bytes()" - and only then
+            'r is Ok <==> offset <= %s.len() // [C04.split_at.bounds]' % OLDC,
+            ERR_STAYS + ' // [C04.split_at.err_nothing_moves]',
+            # the first cursor keeps exactly the first `offset` bytes, the second starts exactly `offset` bytes further
+            'r is Ok ==> cells(final(self).buffers@) =~= %s.subrange(0, offset as int) && final(self).bytes_consumed == old(self).bytes_consumed // [C04.split_at.first]' % OLDC,
+            'r is Ok ==> cells(r->Ok_0.buffers@) =~= %s.skip(offset as int) && r->Ok_0.bytes_consumed == 0 // [C04.split_at.second]' % OLDC]),
+}
+
+# loop annotations shared by allocate_file_volatile_slice and mark_dirty (same loop skeleton over `self.buffers`)
+def _prefix_loop(acc, acc0=''):
+    """acc: the sequence built so far (fcells(bufs@) / the log delta), acc0: prefix term"""
+    return '''for buf in it: self.buffers.iter()
+            invariant_except_break
+                rem <= count, it.index@ <= self.buffers@.len(),
+                rem > 0 ==> %(acc)s =~= %(acc0)scells(self.buffers@.take(it.index@)) && rem + cells(self.buffers@.take(it.index@)).len() == count,
+                rem == 0 ==> count <= all.len() && %(acc)s =~= %(acc0)sall.subrange(0, count as int),
+            invariant
+                all == cells(self.buffers@), self.buffers@.take(self.buffers@.len() as int) =~= self.buffers@,
+            ensures
+                %(acc)s =~= %(acc0)sall.subrange(0, minn(count as int, all.len() as int)),
+        {
+            proof { lemma_cells_take_next(self.buffers@, it.index@); }''' % dict(acc=acc, acc0=acc0)
+
+
+def iobuffers_fns(external=False):
+    """the IoBuffers functions; external=True: signature + contract only (for unit virtiofsw, which assumes what this unit proves)"""
     SC = "impl<S: BitmapSlice> IoBuffers<'_, S>"
-    items = [
-        Raw(PRE.split('// ---- specification')[0]),
-        Copy(T, r"struct IoBuffers<'a, S>", prefix='#[verifier::reject_recursive_types(S)]'),
-        Raw('// ---- specification' + PRE.split('// ---- specification')[1]),
-        Group("impl<'a, S: BitmapSlice> IoBuffers<'a, S> {", [
-            Fn(T, SC, 'bytes_consumed', ensures=['r == self.bytes_consumed'], props=['C04']),
-            Fn(T, SC, 'mark_used',
-               ensures=[
-                   # "an operation that would exceed ... fails without writing": counter overflow is an error and nothing moves
-                   'r is Err ==> old(self).bytes_consumed + bytes_consumed > usize::MAX && final(self).buffers@ == old(self).buffers@ && final(self).bytes_consumed == old(self).bytes_consumed // [C04.mark_used.overflow]',
-                   'old(self).bytes_consumed + bytes_consumed <= usize::MAX ==> r is Ok',
-                   # "the bytes obtained from readers are exactly the request bytes in order with none skipped or repeated"
-                   '''r is Ok ==> final(self).bytes_consumed == old(self).bytes_consumed + bytes_consumed
-                        && cells(final(self).buffers@) =~= cells(old(self).buffers@).skip(minn(bytes_consumed as int, cells(old(self).buffers@).len() as int)) // [C04.mark_used.advance]'''],
-               attrs=['#[verifier::exec_allows_no_decreases_clause]'],
-               splices=[('let mut rem = bytes_consumed;', 'after', 'let ghost all = cells(self.buffers@);'),
-                        ('while let Some(buf) = self.buffers.pop_front() {', 'replace', '''while let Some(buf) = self.buffers.pop_front()
+    C = CONTRACTS
+
+    def mk(file, name, rules=(), callees=(), **kw):
+        c = C.get(name, {})
+        if external:
+            kw = dict(props=kw.get('props', ()), attrs=())
+        f = Fn(file, SC, name, requires=c.get('requires', ()), ensures=c.get('ensures', ()), external_body=external, **kw)
+        f.rules = tuple(rules)
+        if 'R23' in rules:
+            f.ghost_token = dict(TOK, callees=list(callees))
+        return f
+    INIT = 'let ghost all = cells(self.buffers@); proof { assert(self.buffers@.take(0) =~= Seq::empty()); assert(self.buffers@.take(self.buffers@.len() as int) =~= self.buffers@); }'
+    fns = [
+        mk(T, 'allocate_file_volatile_slice', rules=('R21',), props=['C04'], canary=True,
+           splices=[('let mut bufs: Vec<FileVolatileSlice> = Vec::with_capacity(self.buffers.len());', 'after', INIT),
+                    ('for buf in self.buffers.iter() {', 'replace', _prefix_loop('fcells(bufs@)')),
+                    ('bufs.push(local_buf);', 'before', 'let ghost b0 = bufs@;'),
+                    ('rem -= local_buf.len();', 'before', 'proof { lemma_fcells_push(b0, local_buf); }')]),
+        mk(T, 'mark_dirty', rules=('R21', 'R23'), callees=['mark_dirty'], props=['C17'], canary=True,
+           splices=[('let mut rem = count;', 'after', INIT + ' let ghost m0 = dm.marked;'),
+                    ('for buf in self.buffers.iter() {', 'replace', _prefix_loop('dm.marked', 'm0 + '))]),
+        mk(T, 'mark_used', props=['C04'], canary=True,
+           attrs=['#[verifier::exec_allows_no_decreases_clause]'],
+           splices=[('let mut rem = bytes_consumed;', 'after', 'let ghost all = cells(self.buffers@);'),
+                    ('while let Some(buf) = self.buffers.pop_front() {', 'replace', '''while let Some(buf) = self.buffers.pop_front()
             invariant_except_break
                 rem <= bytes_consumed, (bytes_consumed - rem) <= all.len(), cells(self.buffers@) =~= all.skip(bytes_consumed - rem),
             invariant
@@ -106,8 +265,8 @@ def unit(root='/repo'):
                 lemma_skip_concat(range(buf.addr(), buf.slen()), cells(self.buffers@), minn(rem as int, buf.slen() as int));
                 if rem >= buf.slen() { lemma_skip_skip(all, c0, buf.slen() as int); } else { lemma_skip_skip(all, c0, rem as int); }
             }'''),
-                        ('self.buffers.push_front(buf.offset(rem).unwrap());', 'after',
-                         '''proof {
+                    ('self.buffers.push_front(buf.offset(rem).unwrap());', 'after',
+                     '''proof {
                     let nb = self.buffers@[0];
                     assert(self.buffers@.skip(1) =~= rest0);
                     assert(self.buffers@ =~= seq![nb] + self.buffers@.skip(1));
@@ -116,25 +275,54 @@ def unit(root='/repo'):
                     assert(cells(self.buffers@) =~= range(buf.addr(), buf.slen()).skip(rem as int) + cells(self.buffers@.skip(1)));
                     assert(all.skip(c0).skip(rem as int) =~= range(buf.addr(), buf.slen()).skip(rem as int) + cells(rest0));
                     assert(cells(self.buffers@) =~= all.skip(bytes_consumed as int));
-                }''')],
-               props=['C04'], canary=True),
-            Fn(T, SC, 'consume',
-               requires=['forall|b: &[FileVolatileSlice<\'_>]| f.requires((b,))',
-                         # the documented contract of the callback: it reports at most the bytes it was offered
-                         'forall|b: &[FileVolatileSlice<\'_>], q: io::Result<usize>| f.ensures((b,), q) && q is Ok ==> q->Ok_0 <= fcells(b@).len()'],
-               ensures=[
-                   'r is Err ==> final(self).buffers@ == old(self).buffers@ && final(self).bytes_consumed == old(self).bytes_consumed // [C04.consume.err_nothing_moves]',
-                   '''r is Ok ==> r->Ok_0 <= count && r->Ok_0 <= cells(old(self).buffers@).len() && final(self).bytes_consumed == old(self).bytes_consumed + r->Ok_0
-                        && cells(final(self).buffers@) =~= cells(old(self).buffers@).skip(r->Ok_0 as int) // [C04.consume.advance]'''],
-               props=['C04'], canary=True),
-            Fn(T, SC, 'consume_for_read',
-               requires=['forall|b: &[FileVolatileSlice<\'_>]| f.requires((b,))',
-                         'forall|b: &[FileVolatileSlice<\'_>], q: io::Result<usize>| f.ensures((b,), q) && q is Ok ==> q->Ok_0 <= fcells(b@).len()'],
-               ensures=[
-                   'r is Err ==> final(self).buffers@ == old(self).buffers@ && final(self).bytes_consumed == old(self).bytes_consumed',
-                   '''r is Ok ==> r->Ok_0 <= count && final(self).bytes_consumed == old(self).bytes_consumed + r->Ok_0
-                        && cells(final(self).buffers@) =~= cells(old(self).buffers@).skip(r->Ok_0 as int) // [C04.consume_for_read.advance]'''],
-               props=['C04']),
-        ]),
+                }''')]),
+        mk(T, 'consume', rules=('R23',), callees=['mark_dirty'], props=['C04'], canary=True,
+           # witness for [C04.consume.offered]: the slice the callback was called with
+           splices=[('let bytes_consumed = f(&bufs)?;', 'after',
+                     "proof { assert(exists|b: &[FileVolatileSlice<'_>]| b@ == bufs@ && #[trigger] f.ensures((b,), Ok::<usize, io::Error>(bytes_consumed))); }")]),
+        mk(T, 'consume_for_read', rules=('R23',), callees=['consume'], props=['C04'], canary=True),
+        mk(V, 'consume_for_write', rules=('R23',), callees=['consume'], props=['C17'], canary=True),
+        mk(T, 'split_at', rules=('R22',), props=['C04'], canary=True,
+           splices=[('^', 'after', 'broadcast use axiom_vslice_range;'),
+                    ('let mut rem = offset;', 'after', 'let ghost bs = self.buffers@; proof { assert(bs.take(0) =~= Seq::empty()); assert(bs.take(bs.len() as int) =~= bs); }'),
+                    ('while pos_i < self.buffers.len() {', 'replace', '''while pos_i < self.buffers.len()
+            invariant_except_break
+                pos is None, pos_i <= bs.len(), rem + cells(bs.take(pos_i as int)).len() == offset,
+            invariant
+                self.buffers@ == bs, rem <= offset, bs.take(bs.len() as int) =~= bs,
+            ensures
+                pos is Some ==> pos->Some_0 < bs.len() && rem < bs[pos->Some_0 as int].slen() && rem + cells(bs.take(pos->Some_0 as int)).len() == offset,
+                pos is None ==> rem + cells(bs).len() == offset,
+            decreases bs.len() - pos_i
+        {
+            proof { lemma_cells_take_next(bs, pos_i as int); }'''),
+                    ('let mut other = self.buffers.split_off(at);', 'before', 'proof { lemma_cells_take_next(bs, at as int); }'),
+                    ('let mut other = self.buffers.split_off(at);', 'after',
+                     'proof { assert(self.buffers@ =~= bs.take(at as int)); assert(other@ =~= bs.skip(at as int)); }'),
+                    # all hints for the `if rem > 0 { .. }` block sit after it (anchors independent of the block's text)
+                    ('Ok(IoBuffers {', 'before', '''proof {
+                if self.buffers@.len() == at + 1 && other@.len() >= 1 {
+                    let a = self.buffers@[at as int]; let b = other@[0];
+                    assert(self.buffers@ =~= bs.take(at as int) + seq![a]);
+                    lemma_cells_concat(bs.take(at as int), seq![a]); lemma_cells_one(a);
+                    assert(other@ =~= seq![b] + other@.skip(1));
+                    lemma_cells_concat(seq![b], other@.skip(1)); lemma_cells_one(b);
+                    if other@.skip(1) =~= bs.skip(at + 1) && a.addr() == bs[at as int].addr() && b.addr() == a.addr() + a.slen() && a.slen() + b.slen() == bs[at as int].slen() {
+                        assert(range(bs[at as int].addr(), bs[at as int].slen()) =~= range(a.addr(), a.slen()) + range(b.addr(), b.slen()));
+                    }
+                }
+            }''', 'Ok(IoBuffers {\n                buffers: other,')]),
+    ]
+    if not external:
+        fns.insert(0, Fn(T, SC, 'bytes_consumed', ensures=['r == self.bytes_consumed'], props=['C04']))
+    return fns
+
+
+def unit(root='/repo'):
+    items = [
+        Raw(MODEL),
+        Copy(T, r"struct IoBuffers<'a, S>", prefix='#[verifier::reject_recursive_types(S)]'),
+        Raw(SPEC),
+        Group("impl<'a, S: BitmapSlice> IoBuffers<'a, S> {", iobuffers_fns()),
     ]
     return Unit('iobuffers', items, preludes=['base.rs'])
